@@ -135,10 +135,48 @@ def _vtcp(mode, core):
     return vtcp.bind(mode, core)     # the library's own TCP transport classes on a virtual network
 
 
+def user_subclass(base, mode, kind):
+    """A user's subclass of the public device class that overrides one PUBLIC method for purposes of its own.  The other public methods
+    are documented on their own terms: what they do must not start to depend on the override.
+      'rechunk'  streaming_shell() yields whole lines, as its docstring promises a caller might want (the raw chunks are re-cut)
+      'goodbye'  close() first tells the device good-bye with a command while the connection is up"""
+    if not kind:
+        return base
+    if kind == 'rechunk':
+        if mode == 'sync':
+            class Sub(base):
+                def streaming_shell(self, *a, **k):
+                    for chunk in base.streaming_shell(self, *a, **k):
+                        for line in chunk.splitlines():
+                            yield line
+        else:
+            class Sub(base):
+                async def streaming_shell(self, *a, **k):
+                    async for chunk in base.streaming_shell(self, *a, **k):
+                        for line in chunk.splitlines():
+                            yield line
+        return Sub
+    if kind == 'goodbye':
+        if mode == 'sync':
+            class Sub(base):
+                def close(self):
+                    if self.available:
+                        self.shell('echo bye', read_timeout_s=1.0)
+                    return base.close(self)
+        else:
+            class Sub(base):
+                async def close(self):
+                    if self.available:
+                        await self.shell('echo bye', read_timeout_s=1.0)
+                    return await base.close(self)
+        return Sub
+    raise ValueError(kind)
+
+
 class Session(object):
     """One device object (sync or async) on an in-memory transport wired to a SimDevice."""
 
-    def __init__(self, mode='sync', dev=None, clock=None, default_transport_timeout_s=None, banner=b'verif', gate=None, net='mem', **core_kw):
+    def __init__(self, mode='sync', dev=None, clock=None, default_transport_timeout_s=None, banner=b'verif', gate=None, net='mem', subclass=None, **core_kw):
         m = mods()
         self.mode = mode
         self.dev = dev or SimDevice()
@@ -152,14 +190,14 @@ class Session(object):
             self.module.Lock = DL          # single-threaded sessions: a leaked lock raises instead of blocking forever
             bind_time(self.clock, self.module)
             self.transport = MemT(self.core, gate) if net == 'mem' else _vtcp(mode, self.core)
-            self.device = self.module.AdbDevice(self.transport, default_transport_timeout_s=default_transport_timeout_s, banner=banner)
+            self.device = user_subclass(self.module.AdbDevice, mode, subclass)(self.transport, default_transport_timeout_s=default_transport_timeout_s, banner=banner)
             self.loop = None
         else:
             self.module = m['asyn']
             self.module.Lock = ADL
             bind_time(self.clock, self.module)
             self.transport = MemTA(self.core, gate) if net == 'mem' else _vtcp(mode, self.core)
-            self.device = self.module.AdbDeviceAsync(self.transport, default_transport_timeout_s=default_transport_timeout_s, banner=banner)
+            self.device = user_subclass(self.module.AdbDeviceAsync, mode, subclass)(self.transport, default_transport_timeout_s=default_transport_timeout_s, banner=banner)
             self.loop = asyncio.new_event_loop()
 
     def close_loop(self):
